@@ -134,10 +134,11 @@ def instantiate(struct, rng, runlen=None, lower=0.0):
             k = rng.randint(0, 8) if runlen is None else runlen
             if nxt == "+":
                 k = max(k, 1)
-            out.append(rnd(k, rng, IUPAC[c.upper()]))
+            out.append(rnd(k, rng, c.upper() if (c.islower() and c.upper() not in "ACGT") else IUPAC[c.upper()]))
             i += 3 if struct[i + 2:i + 3] == "?" else 2
         else:
-            out.append(rng.choice(IUPAC[c.upper()]))
+            # (a lower-case ambiguity letter of a pattern is literal: only the data letter itself matches)
+            out.append(c.upper() if (c.islower() and c.upper() not in "ACGT") else rng.choice(IUPAC[c.upper()]))
             i += 1
     s = "".join(out)
     if lower:
